@@ -68,8 +68,23 @@ func (sg *scenGen) genCfg() {
 	}
 	c.MapOrder = r.Intn(simrt.NumMapPolicies)
 	c.Scribble = r.P(500)
+	c.ScribbleResults = r.P(300)
 	c.SpareCap = r.P(500)
 	c.Warm = r.P(700)
+	// package defaults set once at start-up (the only configuration the legacy package has)
+	if r.P(300) {
+		switch r.Intn(4) {
+		case 0:
+			c.PkgLimit = int64(1 + r.Intn(40))
+		case 1:
+			c.PkgLimit = int64(40 + r.Intn(400))
+		case 2:
+			c.PkgLimit = 100000
+		default:
+			c.PkgLimit = int64(r.Intn(6))
+		}
+	}
+	c.PkgNegOff = r.P(120)
 }
 
 // genBufs fills the shared buffers: documents, variants, patches, merge
